@@ -26,9 +26,12 @@ SCRIPTS = NORMAL_SCRIPTS + UNSPENDABLE_SCRIPTS
 
 
 class Hist:
-    def __init__(self, res, seed, idx, tier):
+    def __init__(self, res, seed, idx, tier, forward=False):
         self.res = res
-        self.rng = rng = rng_for(seed, 'sync', idx)
+        self.forward = forward      # extensions and cache pressure only: the trace is replayed on EV.SyncLoop
+        self.rng = rng = rng_for(seed, 'sync-forward' if forward else 'sync', idx)
+        self.trace = []             # [line, expected output] pairs for `evdrv syncloop`
+        self.pending = None         # the block event whose result has not been sampled yet
         self.tier = tier
         self.act = rng.choice([0, 3, 1000])
         self.limit = rng.choice([1, 2, 3, 5, 8])
@@ -79,8 +82,60 @@ class Hist:
             hist.res.bump('reorgs_carried_out')
             return await orig_reorg(count)
         w.bp.reorg_chain = reorg_chain
+        if self.forward:
+            self.install_trace()
         w.spawn('bp', w.bp.fetch_and_process_blocks(w.caught_up_event, w.shutdown_event))
         w.run(self.d.height())
+
+    # -- event trace of the real task, for the model EV.SyncLoop
+    def heights(self):
+        w = self.w
+        return f'{w.bp.state.height} {w.db.state.height} {w.db.fs_height}'
+
+    def sample_pending(self):
+        if self.pending is not None:
+            bid, dh, arg = self.pending
+            self.trace.append([f'B {bid} {dh} ' + ('-' if arg is None else str(int(arg))), 'ok ' + self.heights()])
+            self.pending = None
+
+    def install_trace(self):
+        w, hist = self.w, self
+        bp = w.bp
+        ctx = {'in': None, 'told': None}
+        orig_adv = bp.advance_block
+
+        def advance_block(block):
+            hist.sample_pending()
+            gb = next(b for b in hist.gen.blocks if b.hex_hash == block.hex_hash)
+            dh = hist.d.cached_height()
+            orig_adv(block)
+            hist.pending = [gb.id, dh, None]
+        bp.advance_block = advance_block
+        orig_flush = bp.flush
+
+        async def flush(arg):
+            if ctx['in'] is None and hist.pending is not None and hist.pending[2] is None and not w.shutdown_event.is_set():
+                hist.pending[2] = bool(arg)        # the flush advance_and_maybe_flush performs
+            return await orig_flush(arg)
+        bp.flush = flush
+        orig_cu = bp.on_caught_up
+
+        async def on_caught_up():
+            hist.sample_pending()
+            ctx['in'], ctx['told'] = 'caught_up', None
+            try:
+                await orig_cu()
+            finally:
+                ctx['in'] = None
+            t = ctx['told']
+            hist.trace.append(['C', (f'told {t} ' if t is not None else 'first ') + hist.heights()])
+        bp.on_caught_up = on_caught_up
+        inner = w.notifications.on_block
+
+        async def on_block(touched, height):
+            ctx['told'] = height
+            await inner(touched, height)
+        w.notifications.on_block = on_block
 
     def chain_of(self, tip_hash, height):
         tip = next((b for b in self.gen.blocks if b.hash == tip_hash and b.height == height), None)
@@ -168,6 +223,8 @@ class Hist:
     def env_action(self):
         rng, d, w = self.rng, self.d, self.w
         r = rng.random()
+        if self.forward:
+            r = 0.1 if r < 0.5 else 0.7      # extensions and cache pressure only
         if r < 0.3:
             n = rng.choice([1, 1, 1, 2, 3])
             d.extend(n, max_txs=3)
@@ -269,6 +326,8 @@ class Hist:
             if self.w.errors:
                 self.task_died(self.w.errors[0][1])
                 self.w.errors.clear()
+            if self.forward:
+                self.sample_pending()
             self.stop(final=True)
             if not self.fails:
                 self.final_judge()
@@ -320,8 +379,46 @@ class Hist:
         self.res.bump('spec_lines_judged', sum(len(c[2]) for c in self.checks))
 
 
+def compare_trace(res, h, label):
+    """The event trace of the real task, replayed on EV.SyncLoop: told heights and the three heights
+    (block processor, DB state, files) after every event must agree."""
+    lines = [f'CFG {h.act} {h.limit}']
+    expect = ['ok']
+    sent = set()
+    for line, exp in h.trace:
+        if line.startswith('B '):
+            bid = int(line.split()[1])
+            if bid not in sent:
+                sent.add(bid)
+                b = next(x for x in h.gen.blocks if x.id == bid)
+                lines.append(b.model_line())
+                expect.append('ok')
+        lines.append(line)
+        expect.append(exp)
+    got = run_evdrv('syncloop', lines)
+    res.bump('trace_events', len(h.trace))
+    res.bump('trace_told_points', sum(1 for _l, e in h.trace if e.startswith('told')))
+    res.bump('trace_blocks_with_forced_flush', sum(1 for l, _e in h.trace if l.startswith('B ') and not l.endswith('-')))
+    for i, (e, g) in enumerate(zip(expect, got)):
+        if e != g:
+            if len(res.disagreements) < 3:
+                res.disagreements.append({'suite': 'sync', 'where': f'{label}: event {lines[i][:40]}', 'tags': ['glue'],
+                                          'code': e, 'model': g,
+                                          'script': [l[:60] for l in lines[max(0, i - 12):i + 1] if not l.startswith('BLK')]})
+            return False
+    return True
+
+
 def run(tier, seed):
     res = SuiteResult('sync')
+    for idx in range({'quick': 80, 'thorough': 1000}[tier]):
+        h = Hist(res, seed, idx, tier, forward=True)
+        fails = h.run()
+        res.note_case('F|' + '|'.join(h.events), nontrivial=any('pressure' in e for e in h.events))
+        compare_trace(res, h, f'forward history {idx} (seed {seed})')
+        for c, dtl, tags in fails[:4]:
+            res.violations.append({'suite': 'sync', 'clause': c, 'detail': dtl, 'tags': sorted(set(tags)), 'seed': seed,
+                                   'history': idx, 'forward': True, 'tier': tier, 'events': h.events[-60:]})
     res.rule = ('case = generated daemon history (extensions, natural reorgs up to exactly the reorg limit, admin reorgs, '
                 'cache-pressure events requesting history-only or full flushes, clean restarts) run through the real '
                 'fetch_and_process_blocks task under a seeded scheduler; judged at every moment clients are told a height, '
@@ -347,7 +444,7 @@ def run(tier, seed):
 
 def replay(case):
     res = SuiteResult('sync')
-    h = Hist(res, case['seed'], case['history'], case.get('tier', 'quick'))
+    h = Hist(res, case['seed'], case['history'], case.get('tier', 'quick'), forward=case.get('forward', False))
     return [f'{c}: {d}' for c, d, _t in h.run()]
 
 
